@@ -74,6 +74,11 @@
 //     appended to the trace as `("set resp.Compress", ["true"])`; values read
 //     from abstract objects are re-read (fresh parameters) after any opaque
 //     call or such a write;
+//   - with the file-level option "abstract_bytes", byte slices are abstract
+//     buffers (they are written through aliases);
+//     `buf[lo:hi]` passed to a traced call is shown as "buf[<lo>:<hi>]" with
+//     the values of its bounds, so which window of a buffer is handed to
+//     Unpack / Write is part of the translated meaning;
 //   - []error literals, append on them and errors.Join are lists of optional
 //     texts and "first non-nil" (errors.Join is non-nil iff an element is);
 //   - opaque calls and reads from abstract objects are not allowed inside
@@ -159,6 +164,8 @@ type trSpecFile struct {
 	Funcs []TrFunc `json:"funcs"`
 	// Symbolic turns values of abstract types into tokens (see the header).
 	Symbolic bool `json:"symbolic,omitempty"`
+	// AbstractBytes makes byte slices abstract buffers (see the header).
+	AbstractBytes bool `json:"abstract_bytes,omitempty"`
 }
 
 type loadedPkg struct {
@@ -271,6 +278,8 @@ type translator struct {
 	out     []*funcOut
 	// symbolic: values of abstract types are tokens (String / Option String).
 	symbolic bool
+	// absBytes: byte slices are abstract buffers.
+	absBytes bool
 }
 
 type funcOut struct {
@@ -339,6 +348,11 @@ func (t *translator) leanTypeC(ty types.Type) string {
 		}
 		return ""
 	case *types.Slice:
+		// byte buffers are written through aliases (Read, Unpack, append on a
+		// pooled buffer): they are abstract objects, not list values
+		if b, ok := u.Elem().Underlying().(*types.Basic); ok && b.Kind() == types.Uint8 && t.absBytes {
+			return ""
+		}
 		if el := t.leanType(u.Elem()); el != "" {
 			return "(List " + el + ")"
 		}
@@ -705,6 +719,17 @@ func (c *fctx) expr(e ast.Expr) ex {
 		fail("identifier %s", x.Name)
 	case *ast.SelectorExpr:
 		return c.selector(x)
+	case *ast.StarExpr:
+		if c.t.isAbstract(c.typeOf(x)) {
+			// what an abstract pointer points to: an abstract value again
+			return c.opaqueValue(x)
+		}
+	case *ast.SliceExpr:
+		if c.t.isAbstract(c.typeOf(x.X)) {
+			// a sub-slice of an abstract buffer is nil iff the buffer is; the
+			// bounds are shown where the slice is passed to a traced call
+			return c.expr(x.X)
+		}
 	case *ast.UnaryExpr:
 		if cl, ok := x.X.(*ast.CompositeLit); ok && x.Op == token.AND && c.t.isAbstract(c.typeOf(x)) {
 			// a freshly allocated abstract object: non-nil; calls among its
@@ -1299,6 +1324,20 @@ func (c *fctx) traceArg(a ast.Expr) (code string) {
 	}()
 	if id, ok := a.(*ast.Ident); ok && id.Name == "_" {
 		return code
+	}
+	if se, ok := a.(*ast.SliceExpr); ok && c.t.isAbstract(c.typeOf(se.X)) && !se.Slice3 {
+		// a window of an abstract buffer: its source name and the values of its bounds
+		bound := func(e ast.Expr) string {
+			if e == nil {
+				return "\"\""
+			}
+			b := c.traceArg(e)
+			if b == "\"_\"" {
+				return fmt.Sprintf("%q", c.show(e))
+			}
+			return b
+		}
+		return fmt.Sprintf("(%q ++ %s ++ \":\" ++ %s ++ \"]\")", c.show(se.X)+"[", bound(se.Low), bound(se.High))
 	}
 	tv, ok := c.p.info.Types[a]
 	if !ok || tv.Type == nil {
@@ -2440,7 +2479,7 @@ func runTranslator(specDir, outDir, harness, modfile string) error {
 	sort.Strings(props)
 	for _, prop := range props {
 		sf := specs[prop]
-		t := &translator{l: l, structs: map[string]*structDef{}, funcs: map[string]*funcOut{}, byDecl: map[string]TrFunc{}, symbolic: sf.Symbolic}
+		t := &translator{l: l, structs: map[string]*structDef{}, funcs: map[string]*funcOut{}, byDecl: map[string]TrFunc{}, symbolic: sf.Symbolic, absBytes: sf.AbstractBytes}
 		for _, f := range sf.Funcs {
 			t.byDecl[repoModule+f.Pkg+"."+f.Func] = f
 		}
